@@ -197,9 +197,9 @@ Section Recorded.
   Definition RecInv (s : lstate) : Prop :=
     forall rq, In rq (ls_reqs s) -> F (rq_fetch rq) <> None -> In (rq_fetch rq) (ls_errored s).
 
-  Lemma fetch_recorded : forall f s, fetch_wf kind_of f = true -> RecInv s -> RecInv (fst (run_fetch unit eF f (s, tt))).
+  Lemma fetch_recorded : forall f s, fetch_wfF kind_of F f = true -> RecInv s -> RecInv (fst (run_fetch unit eF f (s, tt))).
   Proof.
-    intros f s Hwf HI rq Hin HF. destruct (fetch_wf_inv _ _ Hwf) as [Hk Hd].
+    intros f s Hwf HI rq Hin HF. destruct (fetch_wfF_inv _ _ _ Hwf) as (Hk & Hd & Hmpk).
     assert (Hold : In rq (ls_reqs s) -> In (rq_fetch rq) (ls_errored (fst (run_fetch unit eF f (s, tt))))).
     { intros K. apply run_fetch_errored_mono. apply HI; assumption. }
     unfold run_fetch in *.
@@ -213,13 +213,13 @@ Section Recorded.
       apply in_app_or in Hin' as [K|[<-|[]]]; [apply Hold; exact K|]. rewrite Hrq.
       specialize (Hloud _ _ EF). rewrite Hk in Hloud.
       match goal with |- In _ (ls_errored (merge_result f ?res ?items ?batch ?s0)) =>
-        exact (proj2 (proj2 (loud_outcome answer root_answer f k _ _ _ _ items s0 Hrobj Hd Hloud P))) end.
+        exact (proj2 (proj2 (loud_outcome answer root_answer f k _ _ _ _ items s0 Hrobj Hd Hloud ltac:(first [exact (Hmpk _ EF) | exact (Hmpk _ eq_refl)]) P))) end.
     - rewrite merge_result_reqs in Hin.
       match type of Hin with In _ (ls_reqs (if ?c then _ else _)) => assert (Hin' : In rq (ls_reqs s ++ [rq0])) by (destruct c; exact Hin) end.
       apply in_app_or in Hin' as [K|[<-|[]]]; [apply Hold; exact K|]. rewrite Hrq in HF. congruence.
   Qed.
 
-  Lemma tree_recorded : forall t s, forallb (fetch_wf kind_of) (fetches_of t) = true -> RecInv s ->
+  Lemma tree_recorded : forall t s, forallb (fetch_wfF kind_of F) (fetches_of t) = true -> RecInv s ->
     RecInv (fst (run_tree unit eF t (s, tt))).
   Proof.
     fix IH 1. intros t; destruct t as [f|l|l]; intros s Hwf HI.
@@ -234,7 +234,7 @@ Section Recorded.
       apply IHl; assumption.
   Qed.
 
-  Theorem failed_recorded_proof : forall t, forallb (fetch_wf kind_of) (fetches_of t) = true ->
+  Theorem failed_recorded_proof : forall t, forallb (fetch_wfF kind_of F) (fetches_of t) = true ->
     forall rq, In rq (ls_reqs (run answer root_answer kind_of F t)) -> F (rq_fetch rq) <> None ->
     In (rq_fetch rq) (ls_errored (run answer root_answer kind_of F t)).
   Proof.
@@ -243,7 +243,7 @@ Section Recorded.
 
   (* the transitive skip, from the fault: a fetch that depends, through any number of fetches, on a
      fetch whose request was faulted sends nothing *)
-  Theorem skip_transitive_proof : forall t, forallb (fetch_wf kind_of) (fetches_of t) = true -> deps_before t = true ->
+  Theorem skip_transitive_proof : forall t, forallb (fetch_wfF kind_of F) (fetches_of t) = true -> deps_before t = true ->
     let s := run answer root_answer kind_of F t in
     ls_hard s = false ->
     forall rq0, In rq0 (ls_reqs s) -> F (rq_fetch rq0) <> None ->
@@ -261,19 +261,25 @@ Lemma failed_recorded_thm :
   forall (answer : N -> bytes -> json * list json) (root_answer : N -> json * list json) (kind_of : N -> fkind)
          (F : N -> option fault) (t : ftree),
     (forall id k, F id = Some k -> loud (kind_of id) k = true) -> roots_are_objects root_answer ->
-    forallb (fetch_wf kind_of) (fetches_of t) = true ->
+    forallb (fetch_wf kind_of) (fetches_of t) = true -> forallb (fault_fits F) (fetches_of t) = true ->
     forall rq, In rq (ls_reqs (run answer root_answer kind_of F t)) -> F (rq_fetch rq) <> None ->
     In (rq_fetch rq) (ls_errored (run answer root_answer kind_of F t)).
-Proof. intros answer root_answer kind_of F t Hl Hr. exact (failed_recorded_proof answer root_answer kind_of F Hl Hr t). Qed.
+Proof.
+  intros answer root_answer kind_of F t Hl Hr Hw Hf.
+  exact (failed_recorded_proof answer root_answer kind_of F Hl Hr t (fetch_wfF_join _ _ _ Hw Hf)).
+Qed.
 
 Lemma skip_transitive_thm :
   forall (answer : N -> bytes -> json * list json) (root_answer : N -> json * list json) (kind_of : N -> fkind)
          (F : N -> option fault) (t : ftree),
     (forall id k, F id = Some k -> loud (kind_of id) k = true) -> roots_are_objects root_answer ->
-    forallb (fetch_wf kind_of) (fetches_of t) = true -> deps_before t = true ->
+    forallb (fetch_wf kind_of) (fetches_of t) = true -> forallb (fault_fits F) (fetches_of t) = true -> deps_before t = true ->
     let s := run answer root_answer kind_of F t in
     ls_hard s = false ->
     forall rq0, In rq0 (ls_reqs s) -> F (rq_fetch rq0) <> None ->
     forall f, dep_reach (fetches_of t) (rq_fetch rq0) f ->
       In (f_id f) (ls_errored s) /\ forall rq, In rq (ls_reqs s) -> rq_fetch rq <> f_id f.
-Proof. intros answer root_answer kind_of F t Hl Hr. exact (skip_transitive_proof answer root_answer kind_of F Hl Hr t). Qed.
+Proof.
+  intros answer root_answer kind_of F t Hl Hr Hw Hf.
+  exact (skip_transitive_proof answer root_answer kind_of F Hl Hr t (fetch_wfF_join _ _ _ Hw Hf)).
+Qed.
